@@ -37,7 +37,7 @@ TITLES = {
     "X": ["~Xtra", "~xtra", "~X", "~x", "~Xtra custom block", "~MUD_DATA", "~mud_data notes", "~Run_parameter", "~TOOL_DEFINITION"],
     "A": ["~A", "~a", "~ASCII", "~ascii", "~A Log data section"],
 }
-BODIES = ["one", "empty", "two", "trailing_blank", "trailing_comment"]
+BODIES = ["one", "empty", "two", "trailing_blank", "trailing_comment", "title_only"]
 OBODIES = [["free text line"], [], ["line one", "", "line three"], ["#not a comment here", "X. 1 : looks like an item"]]
 DECOYS = [None] + [[s, m] for s in "CPX" for m in ("VERS", "WRAP", "NULL", "DLM")] + [["W", "DLM"], ["W", "WRAP"], ["W", "VERS"], ["V", "NULL"]]
 DECOY_VALUE = {"VERS": "1.2", "WRAP": "YES", "NULL": "10.0", "DLM": "COMMA"}
@@ -52,7 +52,7 @@ def axes():
     for s in "VWCPOXA":
         ax.append(("t" + s, list(range(len(TITLES[s])))))
     for s in "VWCPX":
-        ax.append(("b" + s, [0, 1, 2, 3, 4]))
+        ax.append(("b" + s, [0, 1, 2, 3, 4] + ([5] if s == "C" else [])))   # 5: ~C is its title line only (no curve declared)
     ax.append(("bO", [0, 1, 2, 3]))
     ax.append(("decoy", DECOYS))
     ax.append(("rows", [2, 3]))
@@ -61,6 +61,9 @@ def axes():
     ax.append(("surplus", [False, True]))     # one data column more than ~C declares
     ax.append(("wnull", [True, False]))       # ~W carries a NULL item or not
     ax.append(("dates", [False, True]))       # a text column of ISO dates (a hyphen in every data row)
+    # further non-standard sections (each kept under its own title): one more directly after ~X, two more, one directly
+    # before ~A, an EMPTY one directly after ~X, one whose title differs from ~X's only in case / by a suffix
+    ax.append(("more_custom", [None, "after-X", "two-after-X", "before-A", "empty-after-X", "near-name-after-X"]))
     ax.append(("vers", ["2.0", "1.2"]))       # LAS 1.2: ~W lines other than STRT/STOP/STEP/NULL are laid out 'MNEM.UNIT DESCR : VALUE'
     return ax
 
@@ -121,7 +124,9 @@ def _items_for(sec, body, decoy, wnull=True, vers="2.0"):
     extra_names = {"V": ["EXT1", "EXT2"], "W": ["WELL", "FLD"], "C": [], "P": ["P1", "P2"], "X": ["Q1", "Q2"]}[sec]
     items = list(base)
     kind = BODIES[body]
-    n_extra = {"one": 1, "empty": 0, "two": 2, "trailing_blank": 1, "trailing_comment": 1}[kind]
+    n_extra = {"one": 1, "empty": 0, "two": 2, "trailing_blank": 1, "trailing_comment": 1, "title_only": 0}[kind]
+    if kind == "title_only":
+        items = []
     for k in range(min(n_extra, len(extra_names))):
         items.append((extra_names[k], "", "val %s" % extra_names[k].lower(), "descr of %s" % extra_names[k]))
     if decoy and decoy[0] == sec:
@@ -151,12 +156,34 @@ def build(pt):
     ncurves = 2 + (1 if decoy and decoy[0] == "C" else 0)
     rows = pt["rows"]
     ncols = ncurves + (1 if pt.get("surplus") else 0)
+    if BODIES[pt["bC"]] == "title_only":
+        ncols = max(2, ncurves - 2) + (1 if pt.get("surplus") else 0)   # (almost) nothing is declared: the columns become unnamed curves
     matrix = [[10.0 * (i + 1) + j + 0.5 for j in range(ncols)] for i in range(rows)]
     matrix[0][1] = -999.25
     matrix[1][1] = 10.0
+    extras = {}   # title (without '~') -> abstract items of the additional custom sections
+
+    def extra_sec(title, names):
+        items = [(n, "", "val %s" % n.lower(), "descr of %s" % n) for n in names]
+        extras[title[1:]] = items
+        return [title] + [lasgen.item_line(*it) for it in items]
+
+    mc = pt.get("more_custom")
+    xt = TITLES["X"][pt["tX"]]
     for s in pt["order"]:
+        if s == "A" and mc == "before-A":
+            secs.append(extra_sec("~Ytra block", ["Y1", "Y2"]))
         if s in "WCPX":
             secs.append(header_sec(s))
+            if s == "X" and mc == "after-X":
+                secs.append(extra_sec("~Ytra block", ["Y1", "Y2"]))
+            elif s == "X" and mc == "two-after-X":
+                secs.append(extra_sec("~Ytra block", ["Y1"]))
+                secs.append(extra_sec("~Ztra", ["Z1", "Z2", "Q1"]))
+            elif s == "X" and mc == "empty-after-X":
+                secs.append(extra_sec("~Ytra block", []))
+            elif s == "X" and mc == "near-name-after-X":
+                secs.append(extra_sec(xt + "_2", ["Y1", "Q1"]))
         elif s == "O":
             body = OBODIES[pt["bO"]]
             abstract["O"] = "\n".join(x.strip() for x in body)
@@ -168,6 +195,7 @@ def build(pt):
             body = {"plain": drows, "trailing_blank": drows + [""], "trailing_comment": drows + ["# end of data"],
                     "leading_blank": [""] + drows}[bA]
             secs.append([TITLES["A"][pt["tA"]]] + body)
+    abstract["extras"] = extras
     text = lasgen.render(secs)
     exp = np.array(matrix)
     if pt.get("wnull", True):
@@ -191,7 +219,7 @@ def check_point(pt):
         return [V("read-raises", "a successful read", "%s: %s" % (type(e).__name__, str(e)[:160]))], nontriv, "raise", {}, 1
     vio = []
     xkey = TITLES["X"][pt["tX"]][1:]
-    want_keys = {"Version", "Well", "Curves", "Parameter", "Other", xkey}
+    want_keys = {"Version", "Well", "Curves", "Parameter", "Other", xkey} | set(abstract["extras"])
     got_keys = set(las.sections.keys())
     if got_keys != want_keys:
         vio.append(V("section-keys", sorted(want_keys), sorted(got_keys)))
@@ -205,10 +233,20 @@ def check_point(pt):
         want = [(m, u, canon.value_tag(v, "numeric"), d) for (m, u, v, d) in abstract[s]]
         if s == "C" and not pt.get("ignore_data"):
             # undeclared data columns (the surplus column, the date column) become unnamed curves after the declared ones
-            extra = (1 if pt.get("surplus") else 0) + (1 if pt.get("dates") else 0)
+            extra = exp.shape[1] + (1 if pt.get("dates") else 0) - len(want)
             want = want + [("", "", ("str", ""), "")] * extra
         if got != want:
             vio.append(V("items-of-" + key if s != "X" else "items-of-custom", want, got))
+    for key, items in abstract["extras"].items():
+        sec = las.sections.get(key)
+        if sec is None or isinstance(sec, str):
+            if not vio:
+                vio.append(V("section-missing", key, repr(sec)[:100]))
+            continue
+        got = [(i.original_mnemonic, i.unit, canon.value_tag(i.value, "numeric"), i.descr) for i in sec]
+        want = [(m, u, canon.value_tag(v, "numeric"), d) for (m, u, v, d) in items]
+        if got != want:
+            vio.append(V("items-of-custom", want, got))
     if las.sections.get("Other") != abstract["O"]:
         vio.append(V("other-text", abstract["O"], las.sections.get("Other")))
     if pt.get("ignore_data"):
@@ -251,6 +289,10 @@ def classify(pt, clause):
         feats.append("no-well-null")
     if pt.get("vers", "2.0") != "2.0":
         feats.append("vers=" + pt["vers"])
+    if pt.get("more_custom"):
+        feats.append("more-custom=" + pt["more_custom"])
+    if BODIES[pt["bC"]] == "title_only":
+        feats.append("title-only-C")
     return "+".join(feats) or "plain"
 
 
